@@ -32,6 +32,10 @@ extern "C" {
  */
 
 #define WFQ_ADAPT_ATTEMPTS		10	/* Retry if being set */
+#ifdef URCU_VERIF_WFQ_ADAPT_ATTEMPTS
+#undef WFQ_ADAPT_ATTEMPTS
+#define WFQ_ADAPT_ATTEMPTS URCU_VERIF_WFQ_ADAPT_ATTEMPTS
+#endif
 #define WFQ_WAIT			10	/* Wait 10 ms if being set */
 
 static inline void _cds_wfq_node_init(struct cds_wfq_node *node)
